@@ -69,6 +69,10 @@ type StructMap struct {
 	Fields [][2]string
 	// Defaults gives, per Go field, the Coq term used when a composite literal omits the field.
 	Defaults map[string]string
+	// OptionFields: pointer fields whose projection is an option
+	OptionFields map[string]bool
+	// Intern: string fields modelled by a code: field -> string literal -> Coq code (compared with Z.eqb)
+	Intern map[string]map[string]string
 }
 
 // LCfg is the configuration shared by the functions of one generated file.
@@ -80,12 +84,25 @@ type LCfg struct {
 	Maps    map[string]string     // package-level map variable -> Coq function applied to the key
 	MapSet  string                // Coq function for m[k] = v :  MapSet m k v
 	Types   map[string]string     // Go named type -> Coq type (overrides the structural mapping)
+	EqFns   map[string]string     // Go named type -> Coq boolean equality used for == and !=
+	// callee-keyed forms of the idioms (robust against renaming of locals); templates use $0 for
+	// the receiver and $1.. for the arguments, translated on demand
+	ErrCallsBy  map[string]*ErrCall // callee -> effect call in  if err := CALL; err != nil {..}
+	SumCallsBy  map[string]string   // callee -> template of an (A + E) term for  x, err := CALL; if err != nil {..}
+	StmtCallsBy map[string]string   // callee (method) -> template of the new value of its receiver variable
+	// OpaqueTypes: values of these named types are not modelled; a definition of such a variable is
+	// dropped and a field read of it is the configured term (type -> field -> Coq term)
+	OpaqueTypes map[string]map[string]string
 }
 
 // CallMap describes a call the translator may emit.
 type CallMap struct {
 	Coq     string
 	Partial bool // the Coq function returns an option (None = panic)
+	// Tmpl, when set, replaces "(Coq recv args..)": $0 is the receiver, $1.. the arguments
+	Tmpl string
+	// OptionResult marks results of a multi-value call that are option-valued pointers
+	OptionResult []bool
 }
 
 // LFunc describes one function to translate.
@@ -105,6 +122,10 @@ type LFunc struct {
 	StmtCalls  map[string][2]string // source text of a call statement -> {Coq variable rebound, Coq term}
 	SumCalls   map[string]string   // source text of CALL in `x, err := CALL` followed by `if err != nil` -> Coq term (A + E)
 	SkipStmts  []string            // statements whose source text starts with one of these are dropped (documented per function)
+	AtomOption map[string]bool     // atoms (by source text) whose value is an option-valued pointer
+	// LocalMaps: map-typed parameters read as  m[K] : template with $k for the translated key;
+	// the value is an option-valued pointer
+	LocalMaps map[string]string
 	Partial    bool              // the function may panic: results are wrapped with RetWrap, loops use loop_fold
 	RetWrap    string            // format applied to a returned value, e.g. "(Some %s)"; default "%s"
 }
@@ -129,6 +150,11 @@ type LT struct {
 	decl map[string]token.Pos // Go variable -> position of its declaration (for ordering state tuples)
 	nK   int
 	esc  bool // a return or a panic term was emitted (decides between fold_left and loop_fold)
+	optVars map[string]bool       // Go variables currently holding an option-valued pointer
+	alias   map[string]ast.Expr   // p := &X[I]  : p stands for X[I]
+	opaque  map[string]string     // variables of an opaque type -> that type's name
+	poison  map[string]string     // locals whose initialiser is outside the grammar -> reason (an error only if used)
+	depth   int                   // helper inlining depth
 }
 
 func (t *LT) src(n ast.Node) string {
@@ -140,6 +166,75 @@ func (t *LT) src(n ast.Node) string {
 func (t *LT) errf(n ast.Node, f string, a ...interface{}) error {
 	return fmt.Errorf("%s: %s", t.p.Pos(n), fmt.Sprintf(f, a...))
 }
+
+// calleeKey names the function a call refers to: "f" for a function of this package,
+// "Type.Method" for a method (named receiver type, also an interface), "pkg.F" otherwise.
+func (t *LT) calleeKey(c *ast.CallExpr) (string, ast.Expr) {
+	switch f := c.Fun.(type) {
+	case *ast.Ident:
+		if fo, ok := t.p.Info.Uses[f].(*types.Func); ok && fo.Pkg() == t.p.Types {
+			return f.Name, nil
+		}
+	case *ast.SelectorExpr:
+		if sl, ok := t.p.Info.Selections[f]; ok && sl.Kind() == types.MethodVal {
+			return namedName(sl.Recv()) + "." + f.Sel.Name, f.X
+		}
+		if id, ok := f.X.(*ast.Ident); ok {
+			if _, isPkg := t.p.Info.Uses[id].(*types.PkgName); isPkg {
+				return id.Name + "." + f.Sel.Name, nil
+			}
+		}
+	}
+	return "", nil
+}
+
+// expand instantiates a template: $0 = receiver, $1.. = arguments (translated on demand).
+func (t *LT) expand(tmpl string, recv ast.Expr, args []ast.Expr) (string, error) {
+	out := tmpl
+	for i := len(args); i >= 0; i-- {
+		ph := "$" + itoa(i)
+		if !strings.Contains(out, ph) {
+			continue
+		}
+		var e ast.Expr
+		if i == 0 {
+			e = recv
+		} else {
+			e = args[i-1]
+		}
+		if e == nil {
+			return "", fmt.Errorf("template %q has no operand %s", tmpl, ph)
+		}
+		v, err := t.expr(e)
+		if err != nil {
+			return "", err
+		}
+		out = strings.ReplaceAll(out, ph, v)
+	}
+	return out, nil
+}
+
+// errCallOf finds the callee-keyed effect call of an expression, with its term expanded.
+func (t *LT) errCallOf(e ast.Expr) *ErrCall {
+	c, ok := e.(*ast.CallExpr)
+	if !ok {
+		return nil
+	}
+	key, recv := t.calleeKey(c)
+	ec, ok := t.cfg.ErrCallsBy[key]
+	if !ok {
+		return nil
+	}
+	term, err := t.expand(ec.Term, recv, c.Args)
+	if err != nil {
+		return nil
+	}
+	cp := *ec
+	cp.Term = term
+	return &cp
+}
+
+func (t *LT) isOpt(name string) bool { return t.fn.OptionVars[name] || t.optVars[name] }
 
 func deref(ty types.Type) types.Type {
 	if p, ok := ty.(*types.Pointer); ok {
@@ -279,6 +374,13 @@ func (t *LT) binop(e ast.Expr, op token.Token, x ast.Expr, a, b string) (string,
 	case token.EQL, token.NEQ:
 		eq := ""
 		tx := t.p.Info.Types[x].Type
+		if f, ok := t.cfg.EqFns[namedName(tx)]; ok {
+			eq = fmt.Sprintf("(%s %s %s)", f, a, b)
+			if op == token.NEQ {
+				return "(negb " + eq + ")", nil
+			}
+			return eq, nil
+		}
 		if bt, ok := tx.Underlying().(*types.Basic); ok && bt.Info()&types.IsBoolean != 0 {
 			eq = fmt.Sprintf("(Bool.eqb %s %s)", a, b)
 		} else if isStringType(tx) {
@@ -320,6 +422,14 @@ func (t *LT) exprP(e ast.Expr) (string, bool, error) {
 	if a, ok := t.fn.Atoms[t.src(e)]; ok {
 		return a, false, nil
 	}
+	if be, ok := e.(*ast.BinaryExpr); ok {
+		// an atom written with the opposite comparison
+		if n, ok := negOp[be.Op]; ok {
+			if a, ok := t.fn.Atoms[t.src(&ast.BinaryExpr{X: be.X, Op: n, Y: be.Y})]; ok {
+				return "(negb " + a + ")", false, nil
+			}
+		}
+	}
 	switch x := e.(type) {
 	case *ast.ParenExpr:
 		return t.exprP(x.X)
@@ -327,6 +437,12 @@ func (t *LT) exprP(e ast.Expr) (string, bool, error) {
 		switch x.Name {
 		case "true", "false":
 			return x.Name, false, nil
+		}
+		if why, ok := t.poison[x.Name]; ok {
+			return "", false, t.errf(e, "%s is used but its initialiser is outside the grammar: %s", x.Name, why)
+		}
+		if a, ok := t.alias[x.Name]; ok {
+			return t.exprP(a)
 		}
 		if v, ok := t.env[x.Name]; ok {
 			return v, false, nil
@@ -386,6 +502,33 @@ func (t *LT) exprP(e ast.Expr) (string, bool, error) {
 		v, err := t.composite(x)
 		return v, false, err
 	case *ast.BinaryExpr:
+		if x.Op == token.EQL || x.Op == token.NEQ {
+			// a string field modelled by a code, compared with a literal
+			for _, pair := range [][2]ast.Expr{{x.X, x.Y}, {x.Y, x.X}} {
+				sel, ok := stripParens(pair[0]).(*ast.SelectorExpr)
+				if !ok {
+					continue
+				}
+				sm := t.structOf(sel.X)
+				tv := t.p.Info.Types[pair[1]]
+				if sm == nil || sm.Intern[sel.Sel.Name] == nil || tv.Value == nil || tv.Value.Kind() != constant.String {
+					continue
+				}
+				code, ok := sm.Intern[sel.Sel.Name][constant.StringVal(tv.Value)]
+				if !ok {
+					return "", false, t.errf(e, "string %s has no code for field %s", tv.Value.ExactString(), sel.Sel.Name)
+				}
+				v, p, err := t.exprP(sel)
+				if err != nil || p {
+					return "", false, t.errf(e, "unsupported operand of an interned comparison")
+				}
+				eq := fmt.Sprintf("(Z.eqb %s %s)", v, code)
+				if x.Op == token.NEQ {
+					eq = "(negb " + eq + ")"
+				}
+				return eq, false, nil
+			}
+		}
 		a, pa, err := t.exprP(x.X)
 		if err != nil {
 			return "", false, err
@@ -425,6 +568,17 @@ func (t *LT) exprP(e ast.Expr) (string, bool, error) {
 				return "", false, t.errf(e, "unmapped name %s.%s", id.Name, x.Sel.Name)
 			}
 		}
+		if id, ok := x.X.(*ast.Ident); ok {
+			if ot, ok := t.opaque[id.Name]; ok {
+				if term, ok := t.cfg.OpaqueTypes[ot][x.Sel.Name]; ok {
+					return term, false, nil
+				}
+				return "", false, t.errf(e, "field %s of the opaque type %s", x.Sel.Name, ot)
+			}
+			if a, ok := t.alias[id.Name]; ok {
+				return t.exprP(&ast.SelectorExpr{X: a, Sel: x.Sel})
+			}
+		}
 		sm := t.structOf(x.X)
 		if sm == nil {
 			return "", false, t.errf(e, "field of an unmapped type")
@@ -447,6 +601,16 @@ func (t *LT) exprP(e ast.Expr) (string, bool, error) {
 				if i, ok := x.Index.(*ast.Ident); ok {
 					return "a_" + i.Name, false, nil
 				}
+			}
+		}
+		// a map parameter read as an option-valued lookup
+		if id, ok := x.X.(*ast.Ident); ok {
+			if tmpl, ok := t.fn.LocalMaps[id.Name]; ok {
+				k, err := t.expr(x.Index)
+				if err != nil {
+					return "", false, err
+				}
+				return strings.ReplaceAll(tmpl, "$k", k), false, nil
 			}
 		}
 		// a package-level map read as a function
@@ -488,6 +652,16 @@ func (t *LT) exprP(e ast.Expr) (string, bool, error) {
 		}
 		return "(firstn (Z.to_nat " + h + ") " + xs + ")", false, nil
 	case *ast.CallExpr:
+		if tv, ok := t.p.Info.Types[x.Fun]; ok && tv.IsType() && len(x.Args) == 1 {
+			from := t.p.Info.Types[x.Args[0]].Type
+			if from != nil && isIntType(tv.Type) && isIntType(from) &&
+				intWidth(tv.Type) == intWidth(from) && intSigned(tv.Type) == intSigned(from) {
+				return t.exprP(x.Args[0])
+			}
+			if from != nil && isStringType(tv.Type) && isStringType(from) {
+				return t.exprP(x.Args[0])
+			}
+		}
 		if id, ok := x.Fun.(*ast.Ident); ok {
 			switch id.Name {
 			case "len":
@@ -548,16 +722,14 @@ func (t *LT) exprP(e ast.Expr) (string, bool, error) {
 					}
 				}
 			}
-			// configured calls: method on a named type of this package, or pkg.Func
-			key, recv := "", ast.Expr(nil)
-			if sl, ok := t.p.Info.Selections[sel]; ok && sl.Kind() == types.MethodVal {
-				key, recv = namedName(sl.Recv())+"."+sel.Sel.Name, sel.X
-			} else if id, ok := sel.X.(*ast.Ident); ok {
-				if _, isPkg := t.p.Info.Uses[id].(*types.PkgName); isPkg {
-					key = id.Name + "." + sel.Sel.Name
-				}
-			}
+		}
+		// configured calls (callee-keyed), then inlining of small helpers of this package
+		if key, recv := t.calleeKey(x); key != "" {
 			if cm, ok := t.cfg.Calls[key]; ok {
+				if cm.Tmpl != "" {
+					v, err := t.expand(cm.Tmpl, recv, x.Args)
+					return v, cm.Partial, err
+				}
 				out := "(" + cm.Coq
 				if recv != nil {
 					v, err := t.expr(recv)
@@ -575,10 +747,91 @@ func (t *LT) exprP(e ast.Expr) (string, bool, error) {
 				}
 				return out + ")", cm.Partial, nil
 			}
+			if v, partial, ok, err := t.inlineCall(x, key, recv); ok {
+				return v, partial, err
+			}
 		}
 		return "", false, t.errf(e, "unsupported call %s", t.src(x.Fun))
 	}
 	return "", false, t.errf(e, "unsupported expression %T", e)
+}
+
+// inlineCall translates a call of a small function or method of this package that has no
+// configuration by translating its body in place: parameters (and the receiver) are let-bound to
+// the translated arguments, the body's return value is the value of the expression.  Effects of
+// the helper on its pointer parameters are visible inside the helper only (the caller's variable
+// is not rebound): adequate when the caller does not read the object afterwards.
+func (t *LT) inlineCall(c *ast.CallExpr, key string, recv ast.Expr) (string, bool, bool, error) {
+	fd := t.p.FuncDecls()[key]
+	if fd == nil || fd.Body == nil || t.depth > 3 || c.Ellipsis != token.NoPos {
+		return "", false, false, nil
+	}
+	if fd.Type.Results == nil || len(fd.Type.Results.List) != 1 || len(fd.Type.Results.List[0].Names) > 1 {
+		return "", false, false, nil
+	}
+	t.depth++
+	defer func() { t.depth-- }()
+	t.nK++
+	pfx := fmt.Sprintf("h%d_", t.nK)
+	// evaluate the arguments in the caller's environment
+	type bnd struct{ name, coq, val string }
+	var binds []bnd
+	if fd.Recv != nil && len(fd.Recv.List) == 1 && len(fd.Recv.List[0].Names) == 1 && recv != nil {
+		v, err := t.expr(recv)
+		if err != nil {
+			return "", false, true, err
+		}
+		n := fd.Recv.List[0].Names[0].Name
+		binds = append(binds, bnd{n, pfx + n, v})
+	}
+	i := 0
+	for _, f := range fd.Type.Params.List {
+		for _, n := range f.Names {
+			if i >= len(c.Args) {
+				return "", false, false, nil
+			}
+			v, err := t.expr(c.Args[i])
+			if err != nil {
+				return "", false, true, err
+			}
+			binds = append(binds, bnd{n.Name, pfx + n.Name, v})
+			i++
+		}
+	}
+	// translate the body in a fresh environment; the helper may panic iff the caller may
+	saved := struct {
+		env     map[string]string
+		fn      *LFunc
+		recv    string
+		optVars map[string]bool
+		alias   map[string]ast.Expr
+		poison  map[string]string
+		esc     bool
+	}{t.env, t.fn, t.recv, t.optVars, t.alias, t.poison, t.esc}
+	hf := *t.fn
+	hf.Returns, hf.Atoms, hf.ErrCalls, hf.SumCalls, hf.StmtCalls, hf.SkipStmts, hf.OptionVars = nil, map[string]string{}, nil, nil, nil, nil, nil
+	hf.RecvFields, hf.ElemIndex = nil, false
+	hf.RetWrap = "%s"
+	if t.fn.Partial || t.fn.Panic != "" {
+		hf.RetWrap, hf.Panic, hf.Partial = "(Some %s)", "None", true
+	}
+	t.fn, t.recv = &hf, ""
+	t.env = map[string]string{}
+	t.optVars, t.alias, t.poison = map[string]bool{}, map[string]ast.Expr{}, map[string]string{}
+	for _, b := range binds {
+		t.env[b.name] = b.coq
+	}
+	t.esc = false
+	body, err := t.block(t.normStmts(fd.Body.List), kont{ret: func(v string) string { return v }})
+	t.env, t.fn, t.recv, t.optVars, t.alias, t.poison, t.esc = saved.env, saved.fn, saved.recv, saved.optVars, saved.alias, saved.poison, saved.esc
+	if err != nil {
+		return "", false, true, fmt.Errorf("inlining %s: %v", key, err)
+	}
+	out := body
+	for j := len(binds) - 1; j >= 0; j-- {
+		out = fmt.Sprintf("let %s := %s in\n  %s", binds[j].coq, binds[j].val, out)
+	}
+	return "(" + out + ")", hf.Partial, true, nil
 }
 
 func (t *LT) composite(cl *ast.CompositeLit) (string, error) {
@@ -669,6 +922,43 @@ func (t *LT) retTerm(k kont, v string) string {
 	return k.ret(fmt.Sprintf(w, v))
 }
 
+func (t *LT) wrapRet(v string) string {
+	w := t.fn.RetWrap
+	if w == "" {
+		w = "%s"
+	}
+	return fmt.Sprintf(w, v)
+}
+
+// initIsOption: the initialiser of  if p := E; p != nil  yields an option-valued pointer
+func (t *LT) initIsOption(init ast.Stmt, name string) bool {
+	as, ok := init.(*ast.AssignStmt)
+	if !ok || len(as.Lhs) != 1 || len(as.Rhs) != 1 || t.src(as.Lhs[0]) != name {
+		return false
+	}
+	return t.exprIsOption(as.Rhs[0])
+}
+
+func (t *LT) exprIsOption(e ast.Expr) bool {
+	if t.fn.AtomOption[t.src(e)] {
+		return true
+	}
+	if ix, ok := e.(*ast.IndexExpr); ok {
+		if id, ok := ix.X.(*ast.Ident); ok && t.fn.LocalMaps[id.Name] != "" {
+			return true
+		}
+	}
+	switch x := e.(type) {
+	case *ast.Ident:
+		return t.isOpt(x.Name)
+	case *ast.SelectorExpr:
+		if sm := t.structOf(x.X); sm != nil && sm.OptionFields[x.Sel.Name] {
+			return true
+		}
+	}
+	return false
+}
+
 func (t *LT) panicTerm(k kont, n ast.Node) (string, error) {
 	if t.fn.Panic == "" {
 		return "", t.errf(n, "expression may panic but the function has no Panic term")
@@ -728,6 +1018,9 @@ func (t *LT) assigned(l []ast.Stmt) []string {
 	root = func(e ast.Expr) string {
 		switch x := e.(type) {
 		case *ast.Ident:
+			if a, ok := t.alias[x.Name]; ok {
+				return root(a)
+			}
 			return x.Name
 		case *ast.IndexExpr:
 			return root(x.X)
@@ -746,6 +1039,28 @@ func (t *LT) assigned(l []ast.Stmt) []string {
 					if ec, ok := t.fn.ErrCalls[t.src(ia.Rhs[0])]; ok {
 						for _, m := range ec.Modifies {
 							set[m] = token.Pos(1)
+						}
+					}
+					if c, ok := ia.Rhs[0].(*ast.CallExpr); ok {
+						if key, _ := t.calleeKey(c); key != "" {
+							if ec, ok := t.cfg.ErrCallsBy[key]; ok {
+								for _, m := range ec.Modifies {
+									set[m] = token.Pos(1)
+								}
+							}
+						}
+					}
+				}
+			}
+			if es, ok := n.(*ast.ExprStmt); ok {
+				if c, ok := es.X.(*ast.CallExpr); ok {
+					if key, recv := t.calleeKey(c); key != "" {
+						if _, ok := t.cfg.StmtCallsBy[key]; ok {
+							if id, ok := recv.(*ast.Ident); ok && !local[id.Name] {
+								if v, ok := t.env[id.Name]; ok {
+									set[v] = t.decl[id.Name]
+								}
+							}
 						}
 					}
 				}
@@ -859,7 +1174,26 @@ func (t *LT) block(l []ast.Stmt, k kont) (string, error) {
 			}
 		}
 	}
+	if as, ok := l[0].(*ast.AssignStmt); ok && as.Tok == token.DEFINE && len(as.Lhs) == 1 && len(as.Rhs) == 1 {
+		if id, ok := as.Lhs[0].(*ast.Ident); ok {
+			if tv, ok := t.p.Info.Types[as.Rhs[0]]; ok {
+				if _, isOpaque := t.cfg.OpaqueTypes[namedName(tv.Type)]; isOpaque {
+					t.opaque[id.Name] = namedName(tv.Type)
+					return rest()
+				}
+			}
+		}
+	}
+	if rs, ok := l[0].(*ast.RangeStmt); ok {
+		if id, ok := rs.X.(*ast.Ident); ok && t.fn.SkipParams[id.Name] {
+			return rest() // a loop over a parameter that is not modelled (documented per function)
+		}
+	}
 	switch s := l[0].(type) {
+	case *ast.BlockStmt:
+		return t.block(append(append([]ast.Stmt{}, s.List...), l[1:]...), k)
+	case *ast.EmptyStmt:
+		return rest()
 	case *ast.ReturnStmt:
 		var parts []string
 		for _, r := range s.Results {
@@ -869,6 +1203,25 @@ func (t *LT) block(l []ast.Stmt, k kont) (string, error) {
 		if v, ok := t.fn.Returns[key]; ok {
 			t.esc = true
 			return k.ret(v), nil
+		}
+		// the same with the variables abstracted: "nil, $" -> template with $1.. = the results
+		if len(t.fn.Returns) > 0 {
+			var pat []string
+			for _, r := range s.Results {
+				if id, ok := r.(*ast.Ident); ok && id.Name != "nil" && id.Name != "true" && id.Name != "false" {
+					pat = append(pat, "$")
+				} else {
+					pat = append(pat, t.src(r))
+				}
+			}
+			if tmpl, ok := t.fn.Returns[strings.Join(pat, ", ")]; ok {
+				v, err := t.expand(tmpl, nil, s.Results)
+				if err != nil {
+					return "", err
+				}
+				t.esc = true
+				return k.ret(v), nil
+			}
 		}
 		if len(s.Results) == 1 {
 			v, partial, err := t.exprP(s.Results[0])
@@ -924,11 +1277,39 @@ func (t *LT) block(l []ast.Stmt, k kont) (string, error) {
 			r, err := rest()
 			return fmt.Sprintf("let %s := %s in\n  %s", sc[0], sc[1], r), err
 		}
+		if c, ok := s.X.(*ast.CallExpr); ok {
+			if key, recv := t.calleeKey(c); key != "" {
+				if tmpl, ok := t.cfg.StmtCallsBy[key]; ok {
+					if id, ok := recv.(*ast.Ident); ok {
+						if v, ok := t.env[id.Name]; ok {
+							val, err := t.expand(tmpl, recv, c.Args)
+							if err != nil {
+								return "", err
+							}
+							r, err := rest()
+							return fmt.Sprintf("let %s := %s in\n  %s", v, val, r), err
+						}
+					}
+				}
+			}
+		}
 		return "", t.errf(s, "unsupported expression statement %s", t.src(s.X))
 	case *ast.AssignStmt:
 		// x, err := CALL ; if err != nil { ..return }   for a SumCall
 		if len(s.Lhs) == 2 && len(s.Rhs) == 1 && len(l) >= 2 {
-			if term, ok := t.fn.SumCalls[t.src(s.Rhs[0])]; ok {
+			term, ok := t.fn.SumCalls[t.src(s.Rhs[0])]
+			if c, isCall := s.Rhs[0].(*ast.CallExpr); !ok && isCall {
+				if key, recv := t.calleeKey(c); key != "" {
+					if tmpl, found := t.cfg.SumCallsBy[key]; found {
+						v, err := t.expand(tmpl, recv, c.Args)
+						if err != nil {
+							return "", err
+						}
+						term, ok = v, true
+					}
+				}
+			}
+			if ok {
 				x, okx := s.Lhs[0].(*ast.Ident)
 				e, oke := s.Lhs[1].(*ast.Ident)
 				ifs, oki := l[1].(*ast.IfStmt)
@@ -978,7 +1359,13 @@ func (t *LT) ifStmt(s *ast.IfStmt, after []ast.Stmt, k kont) (string, error) {
 	// if [init;] C { A } [else E] ; after
 	wrapInit := func(body string) (string, error) { return body, nil }
 	if as, ok := s.Init.(*ast.AssignStmt); ok && len(as.Lhs) == 1 && len(as.Rhs) == 1 {
-		if ec, ok := t.fn.ErrCalls[t.src(as.Rhs[0])]; ok {
+		ec, ok := t.fn.ErrCalls[t.src(as.Rhs[0])]
+		if !ok {
+			if e2 := t.errCallOf(as.Rhs[0]); e2 != nil {
+				ec, ok = e2, true
+			}
+		}
+		if ok {
 			id, isId := as.Lhs[0].(*ast.Ident)
 			if !isId || s.Else != nil || t.src(s.Cond) != id.Name+" != nil" || !terminates(s.Body.List) {
 				return "", t.errf(s, "an effect call is only supported as  if err := CALL; err != nil { ...return }")
@@ -1006,7 +1393,7 @@ func (t *LT) ifStmt(s *ast.IfStmt, after []ast.Stmt, k kont) (string, error) {
 	}
 	// nil tests on option-valued pointer variables
 	if be, ok := s.Cond.(*ast.BinaryExpr); ok && (be.Op == token.EQL || be.Op == token.NEQ) && s.Else == nil {
-		if id, ok := be.X.(*ast.Ident); ok && t.fn.OptionVars[id.Name] && t.src(be.Y) == "nil" {
+		if id, ok := be.X.(*ast.Ident); ok && t.src(be.Y) == "nil" && (t.isOpt(id.Name) || t.initIsOption(s.Init, id.Name)) {
 			pre := ""
 			if s.Init != nil {
 				as, ok := s.Init.(*ast.AssignStmt)
@@ -1083,6 +1470,13 @@ func (t *LT) ifStmt(s *ast.IfStmt, after []ast.Stmt, k kont) (string, error) {
 	}
 	ite := func(a, b string) (string, error) {
 		if !cpartial {
+			// if C { return true }; return false  is  return C  (and its mirror image)
+			if a == k.ret(t.wrapRet("true")) && b == k.ret(t.wrapRet("false")) {
+				return k.ret(t.wrapRet(c)), nil
+			}
+			if a == k.ret(t.wrapRet("false")) && b == k.ret(t.wrapRet("true")) {
+				return k.ret(t.wrapRet("(negb " + c + ")")), nil
+			}
 			return fmt.Sprintf("(if %s then %s\n   else %s)", c, a, b), nil
 		}
 		pn, err := t.panicTerm(k, s)
@@ -1242,7 +1636,88 @@ func (t *LT) rangeStmt(s *ast.RangeStmt, k kont, rest func() (string, error)) (s
 	return fmt.Sprintf("match loop_fold %s %s %s with\n  | LRet r_ => r_\n  | LNext %s => %s\n  end", step, xs, init, pat, r), nil
 }
 
+// aliasOf recognises  &X[I]
+func aliasOf(e ast.Expr) ast.Expr {
+	if u, ok := e.(*ast.UnaryExpr); ok && u.Op == token.AND {
+		if ix, ok := stripParens(u.X).(*ast.IndexExpr); ok {
+			return ix
+		}
+	}
+	return nil
+}
+
 func (t *LT) assign(s *ast.AssignStmt, k kont, rest func() (string, error)) (string, error) {
+	// p := &X[I] (also in parallel form): p stands for the element from here on
+	if s.Tok == token.DEFINE && len(s.Lhs) == len(s.Rhs) {
+		all := true
+		for _, r := range s.Rhs {
+			if aliasOf(r) == nil {
+				all = false
+			}
+		}
+		if all {
+			for i, l := range s.Lhs {
+				id, ok := l.(*ast.Ident)
+				if !ok {
+					return "", t.errf(s, "unsupported left-hand side")
+				}
+				t.alias[id.Name] = aliasOf(s.Rhs[i])
+				delete(t.env, id.Name)
+			}
+			return rest()
+		}
+	}
+	// writes through an alias:  p.F = E  is  X[I].F = E
+	if len(s.Lhs) == 1 {
+		if sel, ok := s.Lhs[0].(*ast.SelectorExpr); ok {
+			if id, ok := sel.X.(*ast.Ident); ok {
+				if a, ok := t.alias[id.Name]; ok {
+					c := *s
+					c.Lhs = []ast.Expr{&ast.SelectorExpr{X: a, Sel: sel.Sel}}
+					return t.assign(&c, k, rest)
+				}
+			}
+		}
+	}
+	// a, b := E1, E2 where an Ei may panic: evaluate left to right
+	if len(s.Lhs) > 1 && len(s.Lhs) == len(s.Rhs) && s.Tok == token.DEFINE {
+		anyPartial := false
+		var vals []string
+		var parts []bool
+		for _, r := range s.Rhs {
+			v, p, err := t.exprP(r)
+			if err != nil {
+				return "", err
+			}
+			vals, parts = append(vals, v), append(parts, p)
+			anyPartial = anyPartial || p
+		}
+		if anyPartial {
+			var names []string
+			for _, l := range s.Lhs {
+				id, ok := l.(*ast.Ident)
+				if !ok {
+					return "", t.errf(s, "unsupported left-hand side")
+				}
+				names = append(names, "v_"+id.Name)
+			}
+			for _, l := range s.Lhs {
+				id := l.(*ast.Ident)
+				delete(t.env, id.Name)
+				t.bind(id.Name, id.Pos())
+			}
+			out, err := rest()
+			if err != nil {
+				return "", err
+			}
+			for i := len(names) - 1; i >= 0; i-- {
+				if out, err = t.withValue(k, s, vals[i], parts[i], names[i], out); err != nil {
+					return "", err
+				}
+			}
+			return out, nil
+		}
+	}
 	// a, b := <atom>
 	if len(s.Lhs) > 1 && len(s.Rhs) == 1 {
 		a, ok := t.fn.Atoms[t.src(s.Rhs[0])]
@@ -1252,6 +1727,17 @@ func (t *LT) assign(s *ast.AssignStmt, k kont, rest func() (string, error)) (str
 				return "", t.errf(s, "multi-value call is neither an atom nor a configured call: %s", t.src(s.Rhs[0]))
 			}
 			a = v
+			if c, ok := s.Rhs[0].(*ast.CallExpr); ok {
+				if key, _ := t.calleeKey(c); key != "" {
+					if cm, ok := t.cfg.Calls[key]; ok {
+						for i, l := range s.Lhs {
+							if id, ok := l.(*ast.Ident); ok && i < len(cm.OptionResult) && cm.OptionResult[i] {
+								t.optVars[id.Name] = true
+							}
+						}
+					}
+				}
+			}
 		}
 		var vars []string
 		for _, l := range s.Lhs {
@@ -1304,7 +1790,22 @@ func (t *LT) assign(s *ast.AssignStmt, k kont, rest func() (string, error)) (str
 	}
 	val, vpartial, err := t.exprP(rhs)
 	if err != nil {
+		if id, ok := lhs.(*ast.Ident); ok && s.Tok == token.DEFINE {
+			// a local whose initialiser is outside the grammar is an error only if it is used
+			// (e.g. a capacity computed for make)
+			t.poison[id.Name] = err.Error()
+			delete(t.env, id.Name)
+			return rest()
+		}
 		return "", err
+	}
+	if id, ok := lhs.(*ast.Ident); ok && s.Tok == token.DEFINE {
+		delete(t.poison, id.Name)
+		if t.exprIsOption(rhs) {
+			t.optVars[id.Name] = true
+		} else {
+			delete(t.optVars, id.Name)
+		}
 	}
 	if id, ok := lhs.(*ast.Ident); ok && op == 0 && vpartial {
 		v := t.bind(id.Name, id.Pos())
@@ -1485,7 +1986,8 @@ func TranslateLoopFunc(p *Pkg, cfg *LCfg, fn *LFunc) (string, error) {
 	if fd == nil || fd.Body == nil {
 		return "", fmt.Errorf("%s: not found in source", fn.Key)
 	}
-	t := &LT{p: p, cfg: cfg, fn: fn, env: map[string]string{}, decl: map[string]token.Pos{}}
+	t := &LT{p: p, cfg: cfg, fn: fn, env: map[string]string{}, decl: map[string]token.Pos{},
+		optVars: map[string]bool{}, alias: map[string]ast.Expr{}, opaque: map[string]string{}, poison: map[string]string{}}
 	var binders []string
 	for _, b := range fn.Params {
 		binders = append(binders, fmt.Sprintf("(%s : %s)", b[0], b[1]))
@@ -1579,7 +2081,7 @@ func TranslateLoopFunc(p *Pkg, cfg *LCfg, fn *LFunc) (string, error) {
 			}
 		}
 	}
-	body, err := t.block(fd.Body.List, kont{ret: func(v string) string { return v }})
+	body, err := t.block(t.normStmts(fd.Body.List), kont{ret: func(v string) string { return v }})
 	if err != nil {
 		return "", fmt.Errorf("%s: %v", fn.Key, err)
 	}
